@@ -3,11 +3,12 @@ import PeliteModel.Lemmas.IterSeq
 /-!
 C18 (POGO records) — `PgoIter` behaves as the plain front-to-back sequence of its items.
 
-`PgoIter` (src/wrap/debug.rs) implements `Iterator::next` only: `nth`, `count`, `size_hint`, `last`, … are
-the defaults of `std`, defined through `next`; there is no `next_back`, no `len`; `clone` copies the state
-(a `&[u32]`).  So a call history of a `PgoIter` is a number of calls of `next` on a state, and a clone is
-the same state again.  `pgoNext` (Model/Dirs.lean) is ONE such call; `pgoItemsFrom b st` the sequence of
+`PgoIter` (src/wrap/debug.rs; `Iterator + Clone`) implements `Iterator::next` only: `nth`, `count`, `size_hint`
+are the provided methods of `core`, loops over `next`; there is no `next_back`, no `len`; `clone` copies the
+state (a `&[u32]`).  `pgoNext` (Model/Dirs.lean) is ONE call of `next`; `pgoItemsFrom b st` the sequence of
 items a `for` loop over the iterator in state `st` yields (`pgoItems` = the same from `Pgo::iter()`).
+First the histories of `next` alone (`C18_pgo_next_is_head`, `C18_pgo_history`, `C18_pgo_fused`), then every
+history over all the calls the type offers (`C18_pgo_is_seq`).
 `b` ranges over ALL byte buffers, `st` over ALL states (offset, number of words).
 -/
 namespace Pelite.Dirs
@@ -80,125 +81,19 @@ theorem C18_pgo_history (b : Bytes) (k : Nat) (st : Nat × Nat) :
 /-- The number of items is bounded by the window (`count`, `size_hint` terminate): every item takes at least
 three words. -/
 theorem C18_pgo_count_le (b : Bytes) (st : Nat × Nat) :
-    ∃ l, pgoItemsFrom b st = .ok l ∧ 3 * l.length ≤ st.2 := by
-  -- measure: the window length strictly decreases by ≥ 3 with every `Some`
-  have key : ∀ (n : Nat) (st : Nat × Nat), st.2 = n → ∃ l, pgoItemsFrom b st = .ok l ∧ 3 * l.length ≤ st.2 := by
-    intro n
-    induction n using Nat.strongRecOn with
-    | ind n ih =>
-      intro st hn
-      obtain ⟨l, r, hl, hr, hhead, htail⟩ := pgoNext_is_head b st
-      refine ⟨l, hl, ?_⟩
-      cases l with
-      | nil => simp
-      | cons x xs =>
-        -- the step consumed at least 3 words
-        obtain ⟨r', hr', _, hsome⟩ := pgoNext_ok b st
-        rw [hr] at hr'
-        cases hr'
-        obtain ⟨hlt, hend, hoff⟩ := hsome x (by rw [hhead]; rfl)
-        obtain ⟨l', hl', hle⟩ := ih r.2.2 (by omega) r.2 rfl
-        rw [htail] at hl'
-        cases hl'
-        -- words consumed: st.2 - r.2.2 ≥ 3 because the offset moved by 4 * (2 + len + 1) ≥ 12
-        have h3 : r.2.2 + 3 ≤ st.2 := by
-          unfold pgoNext at hr
-          simp only at hr
-          by_cases hge : st.2 ≥ 3
-          · rw [if_pos hge] at hr
-            cases hc : cstrFromBytes b (st.1 + 8) (4 * (st.2 - 2)) with
-            | none => rw [hc] at hr; cases hr; simp at hhead
-            | some name =>
-              rw [hc] at hr
-              simp only at hr
-              split at hr
-              · cases hr
-              · cases hr; simp only; omega
-          · rw [if_neg hge] at hr; cases hr; simp at hhead
-        simp only [List.length_cons, List.tail_cons] at hle ⊢
-        omega
-  exact key st.2 st rfl
+    ∃ l, pgoItemsFrom b st = .ok l ∧ 3 * l.length ≤ st.2 :=
+  pgoItemsFrom_length_le b st
 
-/-! ### every call `PgoIter` offers: next, nth k, size_hint, count, clone (sequence specification of Lemmas/IterSeq.lean) -/
+/-! ### every call `PgoIter` offers: next, nth k, size_hint, count, clone
+
+`pgoStepOp` / `pgoRunOps` (Spec/Dirs.lean) run a history on the model's iterator object — `pgoNext` and the provided
+methods `pgoNth`, `pgoCount`, `pgoSizeHint` over it (Model/Dirs.lean) —, `Seq.runSeq` (Lemmas/IterSeq.lean) the same
+history on a plain list.  The op `pogo_hist` runs the same histories on the real `PgoIter`. -/
 open Pelite.Seq
 
-/-- one call on the model's iterator (state = window), result in the vocabulary of the sequence specification -/
-def pgoStepOp (b : Bytes) (st : Nat × Nat) : Op → Out (Res PgoItem × (Nat × Nat))
-  | .next => pgoNext b st >>= fun r => .ok (.item r.1, r.2)
-  | .nth n => pgoNth b n st >>= fun r => .ok (.item r.1, r.2)
-  | .sizeHint => .ok (.hint (pgoSizeHint st).1 (pgoSizeHint st).2, st)
-  | .count => pgoCount b st >>= fun n => .ok (.num n, st)             -- `it.clone().count()`
-  | .clone => pgoItemsFrom b st >>= fun l => .ok (.list l, st)        -- `it = it.clone()`: same window; its items
-
-/-- the answers of a whole call history on the iterator in state `st` -/
-def pgoRunOps (b : Bytes) : Nat × Nat → List Op → Out (List (Res PgoItem))
-  | _, [] => .ok []
-  | st, o :: os => pgoStepOp b st o >>= fun r => pgoRunOps b r.2 os >>= fun rs => .ok (r.1 :: rs)
-
-/-- provided `nth`: element `k` of the remaining items, the iterator left behind it -/
-theorem pgoNth_spec (b : Bytes) : ∀ (k : Nat) (st : Nat × Nat) (l : List PgoItem), pgoItemsFrom b st = .ok l →
-    ∃ st', pgoNth b k st = .ok (l[k]?, st') ∧ pgoItemsFrom b st' = .ok (l.drop (k + 1)) := by
-  intro k
-  induction k with
-  | zero =>
-    intro st l hl
-    obtain ⟨l', r, hl', hr, hhead, htail⟩ := pgoNext_is_head b st
-    rw [hl] at hl'; cases hl'
-    refine ⟨r.2, ?_, ?_⟩
-    · rw [pgoNth, hr, hhead]; cases l <;> rfl
-    · rw [htail]; cases l <;> rfl
-  | succ k ih =>
-    intro st l hl
-    obtain ⟨l', r, hl', hr, hhead, htail⟩ := pgoNext_is_head b st
-    rw [hl] at hl'; cases hl'
-    rw [pgoNth, hr]
-    simp only [Out.bind_ok]
-    cases l with
-    | nil =>
-      have hn : r.1 = none := hhead
-      rw [hn]
-      exact ⟨r.2, rfl, by simpa using htail⟩
-    | cons x xs =>
-      have hs : r.1 = some x := hhead
-      rw [hs]
-      simp only
-      obtain ⟨st', h1, h2⟩ := ih r.2 xs (by simpa using htail)
-      exact ⟨st', by simpa using h1, by simpa using h2⟩
-
-theorem pgoCountLoop_spec (b : Bytes) : ∀ (fuel : Nat) (st : Nat × Nat) (acc : Nat) (l : List PgoItem),
-    pgoItemsFrom b st = .ok l → l.length < fuel → pgoCountLoop b fuel st acc = .ok (acc + l.length) := by
-  intro fuel
-  induction fuel with
-  | zero => intro st acc l _ h; omega
-  | succ fuel ih =>
-    intro st acc l hl hf
-    obtain ⟨l', r, hl', hr, hhead, htail⟩ := pgoNext_is_head b st
-    rw [hl] at hl'; cases hl'
-    rw [pgoCountLoop, hr]
-    simp only [Out.bind_ok]
-    cases l with
-    | nil =>
-      have hn : r.1 = none := hhead
-      rw [hn]; rfl
-    | cons x xs =>
-      have hs : r.1 = some x := hhead
-      rw [hs]
-      simp only
-      rw [ih r.2 (acc + 1) xs (by simpa using htail) (by simp at hf; omega)]
-      simp only [List.length_cons]
-      congr 1
-      omega
-
-/-- provided `count`: the number of remaining items (the loop terminates: `C18_pgo_count_le`) -/
-theorem pgoCount_spec (b : Bytes) (st : Nat × Nat) (l : List PgoItem) (hl : pgoItemsFrom b st = .ok l) :
-    pgoCount b st = .ok l.length := by
-  obtain ⟨l', hl', hle⟩ := C18_pgo_count_le b st
-  rw [hl] at hl'; cases hl'
-  unfold pgoCount
-  rw [pgoCountLoop_spec b (st.2 + 1) st 0 l hl (by omega)]
-  simp
-
-theorem pgoStepOp_spec (b : Bytes) (st : Nat × Nat) (l : List PgoItem) (hl : pgoItemsFrom b st = .ok l) (o : Op) :
+/-- ONE call of any kind, in any state: the answer and the items left are those of the same call on the list of
+the remaining items. -/
+theorem C18_pgo_step_is_seq (b : Bytes) (st : Nat × Nat) (l : List PgoItem) (hl : pgoItemsFrom b st = .ok l) (o : Op) :
     ∃ st', pgoStepOp b st o = .ok ((stepSeq Hint.unknown l o).1, st') ∧
       pgoItemsFrom b st' = .ok (stepSeq Hint.unknown l o).2 := by
   cases o with
@@ -206,26 +101,18 @@ theorem pgoStepOp_spec (b : Bytes) (st : Nat × Nat) (l : List PgoItem) (hl : pg
     obtain ⟨l', r, hl', hr, hhead, htail⟩ := pgoNext_is_head b st
     rw [hl] at hl'; cases hl'
     refine ⟨r.2, ?_, htail⟩
-    unfold pgoStepOp
-    rw [hr]
-    simp only [Out.bind_ok, stepSeq, DequeSpec.next, hhead]
+    simp only [pgoStepOp, hr, Out.bind_ok, stepSeq, DequeSpec.next, hhead]
   | nth n =>
     obtain ⟨st', h1, h2⟩ := pgoNth_spec b n st l hl
     refine ⟨st', ?_, h2⟩
-    unfold pgoStepOp
-    rw [h1]
-    simp only [Out.bind_ok, stepSeq, DequeSpec.nth]
+    simp only [pgoStepOp, h1, Out.bind_ok, stepSeq, DequeSpec.nth]
   | sizeHint => exact ⟨st, rfl, hl⟩
   | count =>
     refine ⟨st, ?_, hl⟩
-    unfold pgoStepOp
-    rw [pgoCount_spec b st l hl]
-    simp only [Out.bind_ok, stepSeq]
+    simp only [pgoStepOp, pgoCount_spec b st l hl, Out.bind_ok, stepSeq]
   | clone =>
     refine ⟨st, ?_, hl⟩
-    unfold pgoStepOp
-    rw [hl]
-    simp only [Out.bind_ok, stepSeq]
+    simp only [pgoStepOp, hl, Out.bind_ok, stepSeq]
 
 /-- **`PgoIter` is a faithful sequence.**  For ALL bytes, every iterator state and every finite history over
 {next, nth k, size_hint, count, clone} — all the calls a `PgoIter` offers — the model of the iterator object
@@ -238,7 +125,7 @@ theorem C18_pgo_is_seq (b : Bytes) (ops : List Op) (st : Nat × Nat) :
     exact ⟨l, hl, rfl⟩
   | cons o os ih =>
     obtain ⟨l, _, hl, _⟩ := pgoNext_is_head b st
-    obtain ⟨st', h1, h2⟩ := pgoStepOp_spec b st l hl o
+    obtain ⟨st', h1, h2⟩ := C18_pgo_step_is_seq b st l hl o
     obtain ⟨l2, g1, g2⟩ := ih st'
     rw [h2] at g1; cases g1
     refine ⟨l, hl, ?_⟩
